@@ -28,7 +28,7 @@ from ..numcases import shrink_uni_case
 
 IMPORTS = ("Base States Linalg Graph Transition Observation Dist Unilateral UniStatements Models Bilateral Midline "
            "BiStatements Sampling")
-MARGIN = 1e-9
+MARGIN = float(__import__("os").environ.get("C16_MARGIN", "1e-9"))   # override only to exercise the skip path
 
 
 # --------------------------------------------------------------------------------------------------
